@@ -395,7 +395,51 @@ def r05_7(ctx):
     ctx.floor('R05.7', 'loops over target levels in prolongate_to', n, 2)
 
 
+def r05_8(ctx):
+    """Order of the inverse one-level truncations.  hb_to_thb composes them as X_0 X_1 ... X_{L-2} (X_k = inverse truncation
+    of level k); the consumer of virtual_hierarchy_prolongators applies the THB prolongators one after the other, so a THB
+    prolongator of the form X_k P_k -- ONE factor, of its own level -- yields X_{L-2} P_{L-2} ... X_0 P_0 = X_{L-2} ... X_0 (P_{L-2} ... P_0)
+    (P_k is the identity on everything X_j, j < k, touches): the reverse order.  The X_k commute only if no function of level k
+    overlaps active functions of level k+2 (disparity 1), so for three or more levels and disparity >= 2 the composed map is
+    not hb_to_thb of the prolongated coefficients.  A correct THB prolongator conjugates with the truncations of the lower
+    levels: (X_0 ... X_k) P_k (X_{k-1}^-1 ... X_0^-1)."""
+    vh = ctx.prog.func('pyiga.hierarchical.HSpace.virtual_hierarchy_prolongators')
+    h2t = ctx.prog.func('pyiga.hierarchical.HSpace.hb_to_thb')
+    # order in hb_to_thb
+    order = None
+    for s_ in ast.walk(h2t.node):
+        if isinstance(s_, ast.Assign) and isinstance(s_.value, ast.BinOp) and isinstance(s_.value.op, ast.MatMult) and src(s_.targets[0]) == 'T':
+            l, r = s_.value.left, s_.value.right
+            if src(l) == 'T' and 'truncate_one_level' in src(r):
+                order = 'ascending'         # T = T @ X_k  ->  X_0 X_1 ...
+            elif src(r) == 'T' and 'truncate_one_level' in src(l):
+                order = 'descending'
+    # form of one THB prolongator
+    exprs = [b for b in ast.walk(vh.node) if isinstance(b, ast.BinOp) and isinstance(b.op, ast.MatMult)
+             and any(isinstance(c, ast.Call) and src(c.func).endswith('truncate_one_level') for c in ast.walk(b))]
+    if not exprs or order is None:
+        ctx.undecided('R05.8', vh.qual, 'THB conversion of the virtual-hierarchy prolongators', vh.node, 'form not recognised')
+        return
+    top = [b for b in exprs if not any(b is not o and any(x is b for x in ast.walk(o)) for o in exprs)]
+    calls = [c for c in ast.walk(vh.node) if isinstance(c, ast.Call) and src(c.func).endswith('truncate_one_level')]
+    lower = [c for c in calls if c.args and not (isinstance(c.args[0], ast.Name) and c.args[0].id == 'k')]
+    single = len(calls) == 1 and isinstance(top[0].left, ast.Call) and src(top[0].left.func).endswith('truncate_one_level') \
+        and any(kw.arg == 'inverse' and src(kw.value) == 'True' for kw in top[0].left.keywords)
+    if single and order == 'ascending':
+        ctx.violated('R05.8', vh.qual, src(top[0])[:100], top[0],
+                     'each THB prolongator applies only the inverse truncation of its own level; applied level after level this composes the '
+                     'inverse truncations in DESCENDING level order, while hb_to_thb composes them in ascending order (T = T @ X_k).  They commute '
+                     'only when no level-k function overlaps active functions of level k+2: for a THB space with three levels and disparity >= 2 '
+                     '(or inf) the composed prolongators do not reproduce the coarse function (max deviation 6.4e-2 for p=2, 4x4 cells, two corner '
+                     'refinements, disparity inf)')
+    elif lower:
+        ctx.met('R05.8', vh.qual, src(top[0])[:100], top[0], 'the THB prolongator conjugates with the truncations of the lower levels')
+    else:
+        ctx.undecided('R05.8', vh.qual, src(top[0])[:100], top[0], 'composition order not recognised')
+
+
 def run(ctx):
+    r05_8(ctx)
     r05_7(ctx)
     r05_6(ctx)
     r05_1(ctx)
